@@ -1,6 +1,6 @@
 import MmtkModel.Model.RevGroup
 import Driver.Util
-namespace Driver.RevGroup
+namespace Driver.Base.RevGroup
 open Mmtk.RevGroup Driver
 
 def run (args : List String) : String :=
@@ -13,4 +13,4 @@ def run (args : List String) : String :=
       s!"{g.key}:{g.len}:[{joinWith "," (g.items.map toString)}]")
   | _ => "bad-op"
 
-end Driver.RevGroup
+end Driver.Base.RevGroup
